@@ -174,3 +174,11 @@ Theorem monitor_cancel_on_model : forall cfg t0 evs,
   panicked (snd (run (init cfg t0) evs)) \/ trace_sub [5%nat] cfg t0 (model_trace cfg t0 evs) = true.
 Proof. exact monitor_cancel_on_model. Qed.
 Print Assumptions monitor_cancel_on_model.
+
+(* position 19 of p_components (e_gone): a done message names an operation that is still registered in the post-state
+   (the stream stays parked on it: parked_on_registered), so no done message of a model trace is about a collected operation *)
+Theorem monitor_gone_on_model : forall cfg t0 evs,
+  selectors_in_range (init cfg t0) evs -> fresh_calls [] evs -> bg_scripts_ok evs -> causes_ok evs ->
+  panicked (snd (run (init cfg t0) evs)) \/ trace_sub [19%nat] cfg t0 (model_trace cfg t0 evs) = true.
+Proof. exact monitor_gone_on_model. Qed.
+Print Assumptions monitor_gone_on_model.
